@@ -1,5 +1,7 @@
-(** Truncated streams (repaired code): a valid frame sequence cut short inside a frame, followed
-    by FIN or by a stream error, is never ended by a clean EOF. *)
+(** Truncated streams: a valid frame sequence cut short inside a frame, followed by FIN or by a
+    stream error.  On the current code the reader then sees the stream's own terminal error,
+    unchanged: a stream error is reported, but a FIN inside a frame is a CLEAN io.EOF (finding
+    h3/truncated-frame-clean-eof; the repair is pinned by a baseline test). *)
 From Coq Require Import List ZArith Bool Lia.
 From V Require Import Gen.Params Lib.Hex Wire.Varint Wire.VarintProofs
   H3Stream.Model H3Stream.Proofs H3Stream.ProofsStream H3Stream.ProofsExact.
@@ -107,18 +109,16 @@ Qed.
 
 Definition fheader_t (f : wframe) : Z := match f with WData _ _ _ => 0 | WIgn t _ _ _ => t end.
 
-(** Outcome of ParseNext at the partial frame: an error that is io.EOF only in name
-    (errFrameTruncated when the stream ended with FIN), or -- for a DATA frame whose header is
-    complete -- the frame, with less payload behind it than it announces. *)
+(** Outcome of ParseNext at the partial frame: the stream's terminal error as it is (so a
+    plain io.EOF after FIN), or -- for a DATA frame whose header is complete -- the frame, with
+    less payload behind it than it announces. *)
 Lemma parse_next_partial (f : nat) (s : src) (cl : option Z) (f0 : wframe) (part rest : list Z) :
   benign s -> wf_frame f0 -> enc f0 = part ++ rest -> part <> [] -> rest <> [] -> s_data s = part ->
-  (exists s', parse_next (S f) s cl = (inl (truncated true (s_fin s)), s', cl) /\ same_end s s') \/
+  (exists s', parse_next (S f) s cl = (inl (s_fin s), s', cl) /\ same_end s s') \/
   (exists th lh p p1 s', f0 = WData th lh p /\ p = p1 ++ rest /\
       parse_next (S f) s cl = (inr (FData (zlen p)), s', cl) /\ s_data s' = p1 /\ same_end s s').
 Proof.
   intros Hb Hwf Henc Hpne Hrne Hd.
-  assert (Hnonempty : (match s_data s with [] => false | _ :: _ => true end) = true).
-  { rewrite Hd. destruct part; [congruence|reflexivity]. }
   assert (Hhdr : exists th lh p t, enc f0 = th ++ lh ++ p /\ venc th t /\ venc lh (zlen p) /\
                    ((f0 = WData th lh p /\ t = 0) \/ (ignorable t = true /\ exists t', f0 = WIgn t' th lh p))).
   { destruct f0 as [th lh p|t th lh p]; cbn in Hwf.
@@ -130,12 +130,12 @@ Proof.
   destruct (prefix_cases th (lh ++ p) part rest Henc) as [(a2 & Hth & Ha2)|(b1 & Hpart & Hb1)].
   - (* the type varint is cut *)
     left. destruct (read_varint_short s th part a2 t Ht Hth Ha2 Hb Hd) as (s1 & H1 & _ & H3).
-    cbn [parse_next]. rewrite H1, Hnonempty. eauto.
+    cbn [parse_next]. rewrite H1. eauto.
   - destruct (prefix_cases lh p b1 rest Hb1) as [(l2 & Hlh & Hl2)|(p1 & Hb1' & Hp)].
     + (* the length varint is cut *)
       left. destruct (read_varint_venc s th t b1 Hb Ht) as (s1 & H1 & H2 & H3); [rewrite Hd; exact Hpart|].
       destruct (read_varint_short s1 lh b1 l2 (zlen p) Hl Hlh Hl2 (benign_same_end _ _ H3 Hb) H2) as (s2 & H4 & _ & H6).
-      cbn [parse_next]. rewrite H1, H4, Hnonempty. pose proof H3 as [Hf _]. rewrite Hf.
+      cbn [parse_next]. rewrite H1, H4. pose proof H3 as [Hf _]. rewrite Hf.
       exists s2. split; [reflexivity|]. eapply same_end_trans; [exact H3|exact H6].
     + (* the header is complete, the payload is cut *)
       subst b1 p.
@@ -147,7 +147,7 @@ Proof.
         destruct (skip_short (fuel_of s2) s2 p1 (zlen (p1 ++ rest)) H3) as (s3 & H5 & _ & H7).
         { rewrite zlen_app. destruct rest; [congruence|]. unfold zlen. cbn [length]. lia. }
         { unfold fuel_of. rewrite H3. lia. }
-        cbn [parse_next]. rewrite H1, H2, E0, E1, E4, E7, Er, H5, Hnonempty.
+        cbn [parse_next]. rewrite H1, H2, E0, E1, E4, E7, Er, H5.
         pose proof H4 as [Hf Hw]. rewrite Hf. exists s3. split; [reflexivity|].
         eapply same_end_trans; [exact H4|exact H7].
 Qed.
@@ -156,99 +156,71 @@ Qed.
 Definition pinv (x : stream) (p1 : list Z) (k : Z) : Prop :=
   x_rem x = zlen p1 + k /\ 0 < k /\ s_data (x_src x) = p1 /\ benign (x_src x).
 
-(** the error a reader sees at the cut *)
-Definition cut_error_ok (fin : err) (cl0 : option Z) (e : option err) (x' : stream) : Prop :=
-  exists e0, e = Some e0 /\ e0 <> EEOF /\
-    (fin = EEOF -> e0 = EUnexpectedEOF /\ x_closed x' = close_conn cl0 h3ErrCodeFrameError).
-
 Lemma read_payload_cut (x : stream) (p1 : list Z) (k blen : Z) :
   pinv x p1 k ->
   exists out e x' p1',
-    read_payload x blen = (out, e, x') /\ p1 = out ++ p1' /\
-    ((e = None /\ pinv x' p1' k /\ quiet x x' /\ same_end (x_src x) (x_src x') /\
+    read_payload x blen = (out, e, x') /\ p1 = out ++ p1' /\ quiet x x' /\
+    ((e = None /\ pinv x' p1' k /\ same_end (x_src x) (x_src x') /\
       (0 < blen -> (dlen x' < dlen x)%nat) /\ (dlen x' <= dlen x)%nat)
-     \/ (p1' = [] /\ cut_error_ok (s_fin (x_src x)) (x_closed x) e x')).
+     \/ (p1' = [] /\ e = Some (s_fin (x_src x)))).
 Proof.
   intros (Hrem & Hk & Hd & Hb).
   unfold read_payload. set (m := if x_rem x <? blen then x_rem x else blen).
   assert (Hm : m <= x_rem x /\ m <= blen /\ (m = x_rem x \/ m = blen)).
   { unfold m. destruct (Z.ltb_spec (x_rem x) blen); lia. }
   pose proof (zlen_nonneg p1) as Hp1.
-  assert (Herr : forall (out : list Z) (s1 : src) (r : Z), 0 < r ->
-            cut_error_ok (s_fin (x_src x)) (x_closed x)
-              (if is_eof (s_fin (x_src x)) && (0 <? x_rem (set_rem (set_src x s1) r)) then Some EUnexpectedEOF else Some (s_fin (x_src x)))
-              (if is_eof (s_fin (x_src x)) && (0 <? x_rem (set_rem (set_src x s1) r)) then truncated_frame (set_rem (set_src x s1) r) else set_rem (set_src x s1) r)).
-  { intros out s1 r Hr. cbn [x_rem set_rem]. destruct (Z.ltb_spec 0 r); [|lia].
-    destruct (s_fin (x_src x)) eqn:Ef; cbn [is_eof andb];
-      try (eexists; split; [reflexivity|]; split; [discriminate|intros; discriminate]).
-    exists EUnexpectedEOF. split; [reflexivity|]. split; [discriminate|]. intros _. split; reflexivity. }
   destruct p1 as [|b p1r].
-  - (* nothing left *)
-    rewrite src_read_empty by exact Hd. cbv zeta. cbn [oerr_is_eof].
-    change (zlen (@nil Z)) with 0 in *.
-    specialize (Herr [] (x_src x) (x_rem x - 0) ltac:(lia)).
-    exists [].
-    destruct (is_eof (s_fin (x_src x)) && (0 <? x_rem (set_rem (set_src x (x_src x)) (x_rem x - 0)))) eqn:Ec;
-      do 3 eexists; (split; [reflexivity|]); (split; [reflexivity|]); right; (split; [reflexivity|exact Herr]).
+  - rewrite src_read_empty by exact Hd.
+    exists [], (Some (s_fin (x_src x))), (set_rem (set_src x (x_src x)) (x_rem x - zlen (@nil Z))), [].
+    split; [reflexivity|]. split; [reflexivity|]. split; [repeat split|]. right. auto.
   - destruct (Z.leb_spec m 0) as [Hm0|Hm0].
     + assert (Hr : src_read (x_src x) m = ([], None, x_src x)).
       { unfold src_read. rewrite Hd. destruct (Z.leb_spec m 0); [reflexivity|lia]. }
-      rewrite Hr. cbv zeta. cbn [oerr_is_eof andb]. change (zlen (@nil Z)) with 0.
+      rewrite Hr. change (zlen (@nil Z)) with 0.
       exists [], None, (set_rem (set_src x (x_src x)) (x_rem x - 0)), (b :: p1r).
-      split; [reflexivity|]. split; [reflexivity|]. left. split; [reflexivity|].
+      split; [reflexivity|]. split; [reflexivity|]. split; [repeat split|]. left. split; [reflexivity|].
       split; [unfold pinv; cbn [x_rem x_src set_rem set_src]; split; [lia|]; split; [exact Hk|]; split; [exact Hd|exact Hb]|].
-      split; [repeat split|]. split; [apply same_end_refl|].
+      split; [apply same_end_refl|].
       unfold dlen. cbn [x_src set_rem set_src]. split; [|lia]. intros Hbl. exfalso. lia.
     + destruct (src_read_some (x_src x) m) as (n & e & s1 & Hr & Hn1 & Hn2 & Hn3 & Hd1 & Hse & He);
         [rewrite Hd; discriminate | lia |].
-      rewrite Hr. cbv zeta. rewrite Hd in *.
+      rewrite Hr. rewrite Hd in *.
       assert (Hz : x_rem x - zlen (firstn n (b :: p1r)) = zlen (skipn n (b :: p1r)) + k).
       { rewrite zlen_firstn by exact Hn3. rewrite zlen_skipn, Nat.min_l by exact Hn3. lia. }
-      exists (firstn n (b :: p1r)).
+      exists (firstn n (b :: p1r)), e, (set_rem (set_src x s1) (x_rem x - zlen (firstn n (b :: p1r)))), (skipn n (b :: p1r)).
+      split; [reflexivity|]. split; [symmetry; apply firstn_skipn|]. split; [repeat split|].
       destruct He as [->|(He1 & He2 & ->)].
-      * cbn [oerr_is_eof andb].
-        exists None, (set_rem (set_src x s1) (x_rem x - zlen (firstn n (b :: p1r)))), (skipn n (b :: p1r)).
-        split; [reflexivity|]. split; [symmetry; apply firstn_skipn|]. left. split; [reflexivity|].
+      * left. split; [reflexivity|].
         split; [unfold pinv; cbn [x_rem x_src set_rem set_src]; split; [exact Hz|]; split; [exact Hk|]; split; [exact Hd1|eapply benign_same_end; eauto]|].
-        split; [repeat split|]. split; [exact Hse|].
+        split; [exact Hse|].
         unfold dlen. cbn. rewrite Hd1, Hd, skipn_length. cbn [length] in *. split; intros; lia.
-      * cbn [oerr_is_eof].
-        specialize (Herr (firstn n (b :: p1r)) s1 (x_rem x - zlen (firstn n (b :: p1r)))).
-        assert (Hpos : 0 < x_rem x - zlen (firstn n (b :: p1r))).
-        { rewrite Hz. pose proof (zlen_nonneg (skipn n (b :: p1r))). lia. }
-        specialize (Herr Hpos).
-        destruct (is_eof (s_fin (x_src x)) && (0 <? x_rem (set_rem (set_src x s1) (x_rem x - zlen (firstn n (b :: p1r)))))) eqn:Ec;
-          do 2 eexists; exists (skipn n (b :: p1r));
-          (split; [reflexivity|]); (split; [symmetry; apply firstn_skipn|]); right;
-          (split; [rewrite <- Hd1; exact He1|exact Herr]).
+      * right. split; [rewrite <- Hd1; exact He1|reflexivity].
 Qed.
 
 Lemma stream_reads_cut : forall (bufs : list Z) (x : stream) (p1 : list Z) (k : Z),
   pinv x p1 k ->
   exists out e x' p1',
     stream_reads x bufs = (out, e, x') /\ p1 = out ++ p1' /\
-    ((e = None /\ x_closed x' = x_closed x) \/ cut_error_ok (s_fin (x_src x)) (x_closed x) e x') /\
+    (e = None \/ (e = Some (s_fin (x_src x)) /\ p1' = [])) /\ x_closed x' = x_closed x /\
     (all_pos bufs -> (dlen x < length bufs)%nat -> e <> None).
 Proof.
   induction bufs as [|n bufs IH]; intros x p1 k Hinv.
   - exists [], None, x, p1. cbn. split; [reflexivity|]. split; [reflexivity|]. split; [left; auto|].
-    intros _ H. lia.
+    split; [reflexivity|]. intros _ H. lia.
   - pose proof Hinv as (Hrem & Hk & Hd & Hb).
     assert (Hsr : stream_read x n = read_payload x n).
     { unfold stream_read. destruct (Z.eqb_spec (x_rem x) 0); [|reflexivity]. pose proof (zlen_nonneg p1). lia. }
-    destruct (read_payload_cut x p1 k n Hinv) as (out & e & x1 & p1' & Hr & Hp & Hcase).
-    cbn [stream_reads]. rewrite Hsr, Hr.
-    destruct Hcase as [(-> & Hinv1 & Hq & Hse & Hprog & Hdl)|(-> & Hce)].
-    + destruct (IH x1 p1' k Hinv1) as (out2 & e2 & x2 & p2 & Hr2 & Hp2 & He2 & Hlive).
+    destruct (read_payload_cut x p1 k n Hinv) as (out & e & x1 & p1' & Hr & Hp & Hq & Hcase).
+    cbn [stream_reads]. rewrite Hsr, Hr. destruct Hq as (Hq1 & _).
+    destruct Hcase as [(-> & Hinv1 & Hse & Hprog & Hdl)|(-> & ->)].
+    + destruct (IH x1 p1' k Hinv1) as (out2 & e2 & x2 & p2 & Hr2 & Hp2 & He2 & Hc2 & Hlive).
       rewrite Hr2. exists (out ++ out2), e2, x2, p2.
       split; [reflexivity|]. split; [rewrite Hp, Hp2, app_assoc; reflexivity|].
-      destruct Hq as (Hq1 & _). destruct Hse as [Hf _]. rewrite Hf, Hq1 in He2.
-      split; [exact He2|].
+      destruct Hse as [Hf _]. rewrite Hf in He2. split; [exact He2|]. split; [congruence|].
       intros Hpos Hl. inversion Hpos; subst. apply Hlive; [assumption|].
       specialize (Hprog ltac:(assumption)). cbn [length] in Hl. lia.
-    + destruct Hce as (e0 & -> & Hne & Hf).
-      exists out, (Some e0), x1, []. split; [reflexivity|]. split; [exact Hp|].
-      split; [right; exists e0; auto|]. intros _ _. discriminate.
+    + exists out, (Some (s_fin (x_src x))), x1, []. split; [reflexivity|]. split; [exact Hp|].
+      split; [right; auto|]. split; [exact Hq1|]. intros _ _. discriminate.
 Qed.
 
 (** * Phase A: the complete frames, then the partial one *)
@@ -259,7 +231,7 @@ Lemma stream_read_at_cut (x : stream) (fs : list wframe) (f0 : wframe) (part res
   sinvT x [] fs part -> next_data fs = None -> is_partial f0 part rest ->
   exists out e x',
     stream_read x blen = (out, e, x') /\
-    ((out = [] /\ cut_error_ok (s_fin (x_src x)) (x_closed x) e x') \/
+    ((out = [] /\ e = Some (s_fin (x_src x)) /\ x_closed x' = x_closed x) \/
      (exists th lh p p1, f0 = WData th lh p /\ p = p1 ++ rest /\
         exists x1, pinv x1 p1 (zlen rest) /\ x_closed x1 = x_closed x /\ same_end (x_src x) (x_src x1) /\
                    (dlen x1 <= dlen x)%nat /\ read_payload x1 blen = (out, e, x'))).
@@ -276,11 +248,7 @@ Proof.
   destruct (parse_next_partial f s1 (x_closed x) f0 part rest (benign_same_end _ _ H3 Hb) Hwf Henc Hpne Hrne H2)
     as [(s2 & Hp & Hse)|(th & lh & p & p1 & s2 & -> & Hpp & Hp & Hd2 & Hse)].
   - rewrite Hp. destruct H3 as [Hf Hfw]. rewrite Hf.
-    destruct (s_fin (x_src x)) eqn:Efin; cbn [truncated andb is_eof];
-      try (do 3 eexists; split; [reflexivity|]; left; split; [reflexivity|];
-           eexists; split; [reflexivity|]; split; [discriminate|intros; discriminate]).
-    do 3 eexists. split; [reflexivity|]. left. split; [reflexivity|].
-    exists EUnexpectedEOF. split; [reflexivity|]. split; [discriminate|]. intros _. split; reflexivity.
+    do 3 eexists. split; [reflexivity|]. left. auto.
   - rewrite Hp. cbn [x_trailer set_closed set_src]. rewrite Htr.
     set (x1 := set_rem (set_closed (set_src x s2) (x_closed x)) (zlen p)).
     destruct (read_payload x1 blen) as [[out e] x'] eqn:Hr.
@@ -304,41 +272,42 @@ Lemma stream_reads_truncated : forall (bufs : list Z) (x : stream) (cur : list Z
   exists out e x' tl,
     stream_reads x bufs = (out, e, x') /\
     cur ++ payload fs ++ fpayload f0 = out ++ tl /\
-    ((e = None /\ x_closed x' = x_closed x) \/ cut_error_ok (s_fin (x_src x)) (x_closed x) e x') /\
+    (e = None \/ e = Some (s_fin (x_src x))) /\ x_closed x' = x_closed x /\
     (all_pos bufs -> (dlen x < length bufs)%nat -> e <> None).
 Proof.
   induction bufs as [|n bufs IH]; intros x cur fs f0 part rest Hinv Hpart.
   - exists [], None, x, (cur ++ payload fs ++ fpayload f0). cbn.
-    split; [reflexivity|]. split; [reflexivity|]. split; [left; auto|]. intros _ H. lia.
+    split; [reflexivity|]. split; [reflexivity|]. split; [left; auto|]. split; [reflexivity|]. intros _ H. lia.
   - cbn [stream_reads].
     destruct (list_eq_dec Z.eq_dec cur []) as [Hc|Hc]; [destruct (next_data fs) as [[q r]|] eqn:Hnd|].
     2: { (* at the cut *)
       subst cur.
       destruct (stream_read_at_cut x fs f0 part rest n Hinv Hnd Hpart) as (out & e & x1 & Hr & Hcase).
       rewrite Hr. rewrite (next_data_payload_none fs Hnd). cbn [app].
-      destruct Hcase as [(-> & Hce)|(th & lh & p & p1 & -> & Hpp & xp & Hpinv & Hcl & Hse & Hdl & Hrp)].
-      - destruct Hce as (e0 & -> & Hne & Hf).
-        exists [], (Some e0), x1, (fpayload f0). split; [reflexivity|]. split; [reflexivity|].
-        split; [right; exists e0; auto|]. intros _ _. discriminate.
+      destruct Hcase as [(-> & -> & Hcl)|(th & lh & p & p1 & -> & Hpp & xp & Hpinv & Hcl & Hse & Hdl & Hrp)].
+      - exists [], (Some (s_fin (x_src x))), x1, (fpayload f0). split; [reflexivity|]. split; [reflexivity|].
+        split; [right; reflexivity|]. split; [exact Hcl|]. intros _ _. discriminate.
       - (* a DATA frame whose payload is cut: phase B, starting with this very read *)
         assert (Hsr : stream_read xp n = read_payload xp n).
         { unfold stream_read. destruct Hpinv as (Hrem & Hk & _). pose proof (zlen_nonneg p1).
           destruct (Z.eqb_spec (x_rem xp) 0); [lia|reflexivity]. }
-        destruct (stream_reads_cut (n :: bufs) xp p1 (zlen rest) Hpinv) as (out2 & e2 & x2 & p1' & Hr2 & Hp2 & He2 & Hlive).
+        destruct (stream_reads_cut (n :: bufs) xp p1 (zlen rest) Hpinv) as (out2 & e2 & x2 & p1' & Hr2 & Hp2 & He2 & Hc2 & Hlive).
         cbn [stream_reads] in Hr2. rewrite Hsr, Hrp in Hr2. rewrite Hr2.
         exists out2, e2, x2, (p1' ++ rest). split; [reflexivity|].
         split; [cbn [fpayload]; rewrite Hpp, Hp2, app_assoc; reflexivity|].
-        destruct Hse as [Hf _]. rewrite Hf, Hcl in He2. split; [exact He2|].
+        destruct Hse as [Hf _]. rewrite Hf in He2. split; [destruct He2 as [->|[-> _]]; auto|].
+        split; [congruence|].
         intros Hpos Hl. apply Hlive; [exact Hpos|]. lia. }
     + (* a complete DATA frame is still ahead *)
       destruct (stream_read_stepT x cur fs part n Hinv) as (out & e & x1 & cur1 & fs1 & Hr & Hcase & Hpay & Hlen & Hq & Hprog & Hdl & _ & Hse).
       { right. left. congruence. }
       rewrite Hr. destruct Hpart as (Hp1 & Hp2 & Hp3 & Hp4).
       destruct Hcase as [[-> Hinv1]|(_ & _ & _ & Ht & _)]; [|congruence].
-      destruct (IH x1 cur1 fs1 f0 part rest Hinv1 (conj Hp1 (conj Hp2 (conj Hp3 Hp4)))) as (out2 & e2 & x2 & tl & Hr2 & Hpay2 & He2 & Hlive).
+      destruct (IH x1 cur1 fs1 f0 part rest Hinv1 (conj Hp1 (conj Hp2 (conj Hp3 Hp4)))) as (out2 & e2 & x2 & tl & Hr2 & Hpay2 & He2 & Hc2 & Hlive).
       rewrite Hr2. exists (out ++ out2), e2, x2, tl. split; [reflexivity|].
       split. { rewrite app_assoc, Hpay. repeat rewrite <- app_assoc. rewrite Hpay2. reflexivity. }
-      destruct Hq as (Hq1 & _). destruct Hse as [Hf _]. rewrite Hf, Hq1 in He2. split; [exact He2|].
+      destruct Hq as (Hq1 & _). destruct Hse as [Hf _]. rewrite Hf in He2. split; [exact He2|].
+      split; [congruence|].
       intros Hpos Hl. inversion Hpos; subst. apply Hlive; [assumption|].
       assert ((dlen x1 < dlen x)%nat) by (apply Hprog; auto). cbn [length] in Hl. lia.
     + (* inside a complete DATA frame *)
@@ -346,49 +315,92 @@ Proof.
       { left. exact Hc. }
       rewrite Hr. destruct Hpart as (Hp1 & Hp2 & Hp3 & Hp4).
       destruct Hcase as [[-> Hinv1]|(_ & _ & _ & Ht & _)]; [|congruence].
-      destruct (IH x1 cur1 fs1 f0 part rest Hinv1 (conj Hp1 (conj Hp2 (conj Hp3 Hp4)))) as (out2 & e2 & x2 & tl & Hr2 & Hpay2 & He2 & Hlive).
+      destruct (IH x1 cur1 fs1 f0 part rest Hinv1 (conj Hp1 (conj Hp2 (conj Hp3 Hp4)))) as (out2 & e2 & x2 & tl & Hr2 & Hpay2 & He2 & Hc2 & Hlive).
       rewrite Hr2. exists (out ++ out2), e2, x2, tl. split; [reflexivity|].
       split. { rewrite app_assoc, Hpay. repeat rewrite <- app_assoc. rewrite Hpay2. reflexivity. }
-      destruct Hq as (Hq1 & _). destruct Hse as [Hf _]. rewrite Hf, Hq1 in He2. split; [exact He2|].
+      destruct Hq as (Hq1 & _). destruct Hse as [Hf _]. rewrite Hf in He2. split; [exact He2|].
+      split; [congruence|].
       intros Hpos Hl. inversion Hpos; subst. apply Hlive; [assumption|].
-      (* progress needs a non-empty buffer here *)
       assert ((dlen x1 < dlen x)%nat) by (apply Hprog; auto). cbn [length] in Hl. lia.
 Qed.
 
-(** C18_truncation_reported: complete frames [fs], then the beginning [part] of one more
-    frame [f0] (cut anywhere inside it: type, length, payload), then the end of the stream --
-    FIN or a stream error.  Whatever the short-read schedule and the caller's buffers: the reads
-    return a prefix of the DATA payloads; the stream is NEVER ended by a clean io.EOF; after FIN
-    the error is io.ErrUnexpectedEOF with the connection closed with H3_FRAME_ERROR; and the
-    error is reached. *)
-Theorem truncation_reported (fs : list wframe) (f0 : wframe) (part rest : list Z)
+(** What a reader of a truncated stream sees (current code): complete frames [fs], then the
+    beginning [part] of one more frame [f0], then the end of the stream with terminal error [fin].
+    The reads return a prefix of the DATA payloads and then EXACTLY [fin], the connection is
+    left alone, and [fin] is reached. *)
+Theorem truncation_outcome (fs : list wframe) (f0 : wframe) (part rest : list Z)
     (sched : list Z) (fin : err) (fw : bool) (maxHdr : Z) (bufs : list Z) :
   Forall wf_frame fs -> wf_frame f0 -> enc f0 = part ++ rest -> part <> [] -> rest <> [] ->
   (fin = EEOF \/ fw = false) ->
   exists out e x' tl,
     stream_reads (new_stream (mkSrc (wire fs ++ part) sched fin fw) maxHdr) bufs = (out, e, x') /\
     payload (fs ++ [f0]) = out ++ tl /\
-    e <> Some EEOF /\
-    (e = None -> x_closed x' = None) /\
-    (fin = EEOF -> e = None \/ (e = Some EUnexpectedEOF /\ x_closed x' = Some h3ErrCodeFrameError)) /\
-    (all_pos bufs -> (length (wire fs ++ part) < length bufs)%nat -> e <> None).
+    (e = None \/ e = Some fin) /\ x_closed x' = None /\
+    (all_pos bufs -> (length (wire fs ++ part) < length bufs)%nat -> e = Some fin).
 Proof.
   intros Hw Hwf Henc Hp Hr Hben.
   assert (Hinv : sinvT (new_stream (mkSrc (wire fs ++ part) sched fin fw) maxHdr) [] fs part).
   { repeat split; auto. }
   destruct (stream_reads_truncated bufs _ [] fs f0 part rest Hinv (conj Hwf (conj Henc (conj Hp Hr))))
-    as (out & e & x' & tl & Hrd & Hpay & He & Hlive).
+    as (out & e & x' & tl & Hrd & Hpay & He & Hc & Hlive).
   exists out, e, x', tl. split; [exact Hrd|]. split.
   { unfold payload in *. rewrite map_app, concat_app. cbn [map concat app] in *. rewrite app_nil_r. exact Hpay. }
-  cbn [x_src s_fin new_stream x_closed] in He.
-  split. { destruct He as [[-> _]|(e0 & -> & Hne & _)]; [discriminate|congruence]. }
-  split. { intros ->. destruct He as [[_ Hc]|(e0 & He0 & _)]; [exact Hc|discriminate]. }
-  split. { intros Hf. destruct He as [[-> _]|(e0 & -> & _ & Hx)]; [left; reflexivity|right].
-           destruct (Hx Hf) as [-> Hc]. split; [reflexivity|exact Hc]. }
-  exact Hlive.
+  cbn [x_src s_fin new_stream x_closed] in *. split; [exact He|]. split; [exact Hc|].
+  intros Hpos Hl. specialize (Hlive Hpos Hl). destruct He as [E|E]; [congruence|exact E].
 Qed.
 
-(** * The same for an arbitrary prefix of the wire image of a valid frame sequence *)
+(** The case that holds: a stream ERROR inside a frame is reported, never a clean EOF. *)
+Corollary truncation_stream_error_reported (fs : list wframe) (f0 : wframe) (part rest : list Z)
+    (sched : list Z) (a : Z) (maxHdr : Z) (bufs : list Z) :
+  Forall wf_frame fs -> wf_frame f0 -> enc f0 = part ++ rest -> part <> [] -> rest <> [] ->
+  exists out e x' tl,
+    stream_reads (new_stream (mkSrc (wire fs ++ part) sched (EStream a) false) maxHdr) bufs = (out, e, x') /\
+    payload (fs ++ [f0]) = out ++ tl /\
+    (e = None \/ e = Some (EStream a)) /\ e <> Some EEOF /\
+    (all_pos bufs -> (length (wire fs ++ part) < length bufs)%nat -> e = Some (EStream a)).
+Proof.
+  intros Hw Hwf Henc Hp Hr.
+  destruct (truncation_outcome fs f0 part rest sched (EStream a) false maxHdr bufs Hw Hwf Henc Hp Hr (or_intror eq_refl))
+    as (out & e & x' & tl & Hrd & Hpay & He & _ & Hlive).
+  exists out, e, x', tl. split; [exact Hrd|]. split; [exact Hpay|]. split; [exact He|].
+  split; [destruct He as [E|E]; rewrite E; discriminate|exact Hlive].
+Qed.
+
+(** The case that FAILS (finding h3/truncated-frame-clean-eof), in general form: after FIN inside
+    a frame, at ANY cut, the reader sees a clean io.EOF and the connection is not closed. *)
+Corollary truncation_fin_is_clean_eof (fs : list wframe) (f0 : wframe) (part rest : list Z)
+    (sched : list Z) (fw : bool) (maxHdr : Z) (bufs : list Z) :
+  Forall wf_frame fs -> wf_frame f0 -> enc f0 = part ++ rest -> part <> [] -> rest <> [] ->
+  all_pos bufs -> (length (wire fs ++ part) < length bufs)%nat ->
+  exists out x' tl,
+    stream_reads (new_stream (mkSrc (wire fs ++ part) sched EEOF fw) maxHdr) bufs = (out, Some EEOF, x') /\
+    payload (fs ++ [f0]) = out ++ tl /\ x_closed x' = None.
+Proof.
+  intros Hw Hwf Henc Hp Hr Hpos Hl.
+  destruct (truncation_outcome fs f0 part rest sched EEOF fw maxHdr bufs Hw Hwf Henc Hp Hr (or_introl eq_refl))
+    as (out & e & x' & tl & Hrd & Hpay & He & Hc & Hlive).
+  rewrite (Hlive Hpos Hl) in Hrd. exists out, x', tl. auto.
+Qed.
+
+(** Refutation witness of "truncation is reported": a DATA frame announcing 100 bytes, 40 of them,
+    FIN: the reader gets the 40 bytes and a clean EOF, nothing is closed. *)
+Definition trunc_witness_payload : list Z := repeat 7 100.
+Definition trunc_witness_frame : wframe := WData [0] [64; 100] trunc_witness_payload.
+
+Lemma venc_2byte_100 : venc [64; 100] 100.
+Proof. intros [|r rest]; reflexivity. Qed.
+
+Lemma truncation_reported_witness :
+  wf_frame trunc_witness_frame /\
+  enc trunc_witness_frame = ([0; 64; 100] ++ repeat 7 40) ++ repeat 7 60 /\
+  exists x', stream_reads (new_stream (mkSrc ([0; 64; 100] ++ repeat 7 40) [] EEOF false) 1000) [64; 64; 64]
+             = (repeat 7 40, Some EEOF, x') /\ x_closed x' = None /\ x_rem x' = 60.
+Proof.
+  split. { split; [apply venc_1byte; lia|exact venc_2byte_100]. }
+  split; [vm_compute; reflexivity|]. eexists. split; [vm_compute; reflexivity|]. split; reflexivity.
+Qed.
+
+(** * Any prefix of the wire image of a valid frame sequence, ended by FIN: always a clean EOF *)
 Lemma wire_app (a b : list wframe) : wire (a ++ b) = wire a ++ wire b.
 Proof. unfold wire. rewrite map_app, concat_app. reflexivity. Qed.
 Lemma payload_app (a b : list wframe) : payload (a ++ b) = payload a ++ payload b.
@@ -413,16 +425,14 @@ Proof.
         rewrite Hd. change (wire (f :: g1)) with (enc f ++ wire g1). rewrite app_assoc. reflexivity.
 Qed.
 
-Theorem truncation_reported_prefix (fs : list wframe) (d suf : list Z)
+Theorem truncation_prefix_outcome (fs : list wframe) (d suf : list Z)
     (sched : list Z) (fw : bool) (maxHdr : Z) (bufs : list Z) :
   Forall wf_frame fs -> wire fs = d ++ suf ->
   exists out e x' tl,
     stream_reads (new_stream (mkSrc d sched EEOF fw) maxHdr) bufs = (out, e, x') /\
     payload fs = out ++ tl /\
-    (e = None \/
-     (e = Some EEOF /\ x_closed x' = None /\ exists fs1 fs2, fs = fs1 ++ fs2 /\ d = wire fs1 /\ out = payload fs1) \/
-     (e = Some EUnexpectedEOF /\ x_closed x' = Some h3ErrCodeFrameError)) /\
-    (all_pos bufs -> (length d < length bufs)%nat -> e <> None).
+    (e = None \/ e = Some EEOF) /\ x_closed x' = None /\
+    (all_pos bufs -> (length d < length bufs)%nat -> e = Some EEOF).
 Proof.
   intros Hw Hd.
   destruct (prefix_split fs d suf Hd) as [(fs1 & fs2 & -> & ->)|(fs1 & f0 & fs2 & part & rest & -> & -> & He & Hp & Hr)].
@@ -430,15 +440,13 @@ Proof.
     destruct (data_exact fs1 sched fw maxHdr bufs Hw1) as (out & e & x' & tl & Hrd & Hpay & Hcase & Hc & _ & Hlive).
     exists out, e, x', (tl ++ payload fs2). split; [exact Hrd|].
     split; [rewrite payload_app, Hpay, app_assoc; reflexivity|]. split.
-    { destruct Hcase as [->|[-> ->]]; [left; reflexivity|right; left].
-      split; [reflexivity|]. split; [exact Hc|]. exists fs1, fs2. rewrite app_nil_r in Hpay. auto. }
-    intros Hpos Hl. rewrite (Hlive Hpos Hl). discriminate.
+    { destruct Hcase as [->|[-> _]]; auto. }
+    split; [exact Hc|exact Hlive].
   - apply Forall_app in Hw as [Hw1 Hw2]. inversion Hw2 as [|? ? Hwf Hw3]; subst.
-    destruct (truncation_reported fs1 f0 part rest sched EEOF fw maxHdr bufs Hw1 Hwf He Hp Hr (or_introl eq_refl))
-      as (out & e & x' & tl & Hrd & Hpay & Hne & Hnone & Hfin & Hlive).
+    destruct (truncation_outcome fs1 f0 part rest sched EEOF fw maxHdr bufs Hw1 Hwf He Hp Hr (or_introl eq_refl))
+      as (out & e & x' & tl & Hrd & Hpay & Hcase & Hc & Hlive).
     exists out, e, x', (tl ++ payload fs2). split; [exact Hrd|].
     split.
     { rewrite payload_app. change (f0 :: fs2) with ([f0] ++ fs2). rewrite payload_app, app_assoc, <- payload_app, Hpay, app_assoc. reflexivity. }
-    split; [|exact Hlive].
-    destruct (Hfin eq_refl) as [->|[-> Hc]]; [left; reflexivity|right; right; auto].
+    auto.
 Qed.
